@@ -259,6 +259,11 @@ def build(spec, phases_first=False):
             else:
                 s.add_source(comp, group=c.get("g", ""), rail=c.get("r", ""))
         else:
+            if spec.get("hole_before") == c["n"]:   # a component is added and deleted right before this one: it re-uses the freed node index
+                s.add_comp(spec["comps"][0]["n"], comp=C.ILoad("__hole", ii=0.001))
+                s.add_comp(spec["comps"][0]["n"], comp=C.RLoss("__hole2", rs=1.0))
+                s.del_comp("__hole2")
+                s.del_comp("__hole")
             par = c["p"] if len(c["p"]) > 1 or c.get("plist") else c["p"][0]
             s.add_comp(par, comp=comp, group=c.get("g", ""), rail=c.get("r", ""))
     if spec.get("pc_first"):  # component configurations before the system phases are defined
@@ -273,7 +278,11 @@ def build(spec, phases_first=False):
                 s.set_comp_phases(c["n"], copy.deepcopy(c["pc0"]))
         for c in spec["comps"]:
             if c.get("pc") is not None:
-                s.set_comp_phases(c["n"], copy.deepcopy(c["pc"]))
+                pcv = copy.deepcopy(c["pc"])
+                if spec.get("pc_type") and isinstance(pcv, dict):   # the table handed over as a dict SUBCLASS that never raises KeyError
+                    import collections
+                    pcv = collections.defaultdict(float, pcv) if spec["pc_type"] == "defaultdict" else collections.Counter(pcv)
+                s.set_comp_phases(c["n"], pcv)
     if spec.get("bounce") and spec.get("phases"):
         # the system phases are re-defined with other names (and cleared) and then defined again as before: component configurations are kept
         s.set_sys_phases({"x_%s" % k: v for k, v in spec["phases"].items()})
@@ -665,6 +674,7 @@ def rejected_edits(s, spec):
     for n, rec in d.items():
         if rec["children"]:
             calls.append(lambda n=n: s.change_comp(n, comp=PLoad(n, pwr=0.5)))          # a load cannot have children
+            calls.append(lambda n=n: s.change_comp(n, comp=Source(n + "_x", vo=1.0), rail="zz_free_rail"))   # refused late, with a rail argument
         if rec["k"] != "Source":
             calls.append(lambda n=n: s.change_comp(n, comp=Source(n, vo=1.0)))          # only a source can become a source
             calls.append(lambda n=n: s.add_source(Source(n, vo=2.0)))                   # name in use
